@@ -12,8 +12,8 @@ SIZE_SETS = [[2], [3], [2, 3], [2, 4], [2, 5], [3, 5], [2, 3, 4], [2, 4, 6], [4]
 
 class C08(Prop):
     pid = "C08"
-    rule = ("clique covers over 2-14 vertices numbered contiguously from 0 or 1, clique sizes drawn from non-adjacent size sets "
-            "({2,4}, {2,5}, {3,5}, {2,4,6}, ...), overlapping cliques, every vertex covered; every fiftieth cover has one vertex in 257-330 cliques; 10% malformed (non-contiguous ids) compared "
+    rule = ("clique covers over 2-14 vertices numbered contiguously from 0 or 1, clique sizes drawn from size sets with and without 1-cliques and gaps "
+            "({2,4}, {2,5}, {3,5}, {2,4,6}, ...), overlapping cliques, every vertex covered; every fiftieth cover has one vertex in 257-330 cliques; a quarter of the loaders are first built on another cover and rebuilt through the cover attribute; 10% malformed (non-contiguous ids) compared "
             "with the model only; non-trivial = at least two clique sizes occur or a size gap exists; distinct = distinct cover")
     assumptions = ["int/int float frequencies are mapped back to the unique rational with denominator <= number of vertices"]
     model_scope = "modelled: joint_degree_cover.py in full (constructor + create_jdd) and convert_jds_to_jdd"
